@@ -203,6 +203,56 @@ impl GenServer for Echo {
     async fn handle_info(&mut self, _msg: OwnedTerm) -> edp_node::Result<()> { Ok(()) }
 }
 
+/// gen_server whose handler parks at the harness gate `gs.handle` on the request `hold`.
+struct HoldEcho;
+impl GenServer for HoldEcho {
+    async fn init(&mut self, _args: Vec<OwnedTerm>) -> edp_node::Result<()> { Ok(()) }
+    async fn handle_call(&mut self, msg: OwnedTerm, _from: ExternalPid) -> edp_node::Result<CallResult> {
+        if msg == OwnedTerm::atom("hold") { edp_client::verif::point("gs.handle").await; }
+        Ok(CallResult::Reply(OwnedTerm::Tuple(vec![OwnedTerm::atom("echo"), msg])))
+    }
+    async fn handle_cast(&mut self, _msg: OwnedTerm) -> edp_node::Result<()> { Ok(()) }
+    async fn handle_info(&mut self, _msg: OwnedTerm) -> edp_node::Result<()> { Ok(()) }
+}
+
+/// A caller terminates while one of its calls is being handled: the server must go on answering the others.
+/// `first` = whether the dying caller was answered once before (a server that remembers callers sees a stale one).
+fn gen_server_caller_dies(first: &bool, ctx: &WorkerCtx) -> ExecResult {
+    let first = *first;
+    run_rt(async move {
+        let mut res = ExecResult::default();
+        let lw = match local_world(ctx).await { Ok(x) => x, Err(e) => { res.violations.push(("node could not start against the fake EPMD".into(), json!({"error": e}))); return res; } };
+        let log: Log = Arc::new(Mutex::new(vec![]));
+        let node = lw.node.clone();
+        lw.w.gates.set_active(&["gs.handle"]);
+        let pc = node.spawn(Rec { name: "pc".into(), log: log.clone() }).await.unwrap();
+        let pd = node.spawn(Rec { name: "pd".into(), log: log.clone() }).await.unwrap();
+        let gs = node.spawn(GenServerProcess::new(HoldEcho, node.registry())).await.unwrap();
+        let probe = { let l = log.clone(); move || l.lock().unwrap().len() as u64 };
+        let call = |from: &ExternalPid, r: &ExternalReference, q: &str| OwnedTerm::Tuple(vec![OwnedTerm::atom("$gen_call"), OwnedTerm::Tuple(vec![OwnedTerm::Pid(from.clone()), OwnedTerm::Reference(r.clone())]), OwnedTerm::atom(q)]);
+        let (r1, r2, r3, r4) = (node.make_reference(), node.make_reference(), node.make_reference(), node.make_reference());
+        if first { let _ = node.send(&gs, call(&pc, &r1, "q1")).await; settle_local(&lw.w, &probe).await; }
+        let _ = node.send(&gs, call(&pc, &r2, "hold")).await;
+        settle_local(&lw.w, &probe).await; // the server is now inside handle_call for pc's second request
+        let _ = node.send(&pc, OwnedTerm::atom("die")).await;
+        settle_local(&lw.w, &probe).await; // pc has terminated
+        let _ = node.send(&gs, call(&pd, &r3, "q3")).await;
+        lw.w.gates.release_all_and_deactivate();
+        settle_local(&lw.w, &probe).await;
+        let sent4 = node.send(&gs, call(&pd, &r4, "q4")).await.is_ok();
+        settle_local(&lw.w, &probe).await;
+        let got: Vec<String> = log.lock().unwrap().iter().filter(|x| x.0 == "pd").map(|x| x.1.clone()).collect();
+        let want = |r: &ExternalReference, q: &str| format!("msg:{}", RefVal::Tuple(vec![den_ref(r), RefVal::Tuple(vec![RefVal::atom("echo"), RefVal::atom(q)])]));
+        let expect = vec![want(&r3, "q3"), want(&r4, "q4")];
+        if got != expect || !sent4 {
+            res.violations.push(("gen_server stopped answering its callers after one of them terminated".into(), json!({"dying_caller_answered_before": first, "live_caller_received": got, "expected": expect, "server_still_accepts_messages": sent4})));
+        }
+        res.steps = 5;
+        res.outcome = format!("gs caller dies first={} got={}", first, got.len());
+        res
+    })
+}
+
 fn concurrent(ch: &mut Chooser, ctx: &WorkerCtx, scenario: usize) -> ExecResult {
     run_rt(async move {
         let mut res = ExecResult::default();
@@ -372,6 +422,8 @@ pub fn run(rep: &Report) -> Value {
         frontier = next;
     }
     let seq_stats: Stats = for_all(rep, "sequential histories", &cases, |c, ctx| run_sequence(c, ctx));
+    let gsd = [false, true];
+    let gs_stats: Stats = for_all(rep, "gen_server caller terminates while its call is being handled", &gsd, |c, ctx| gen_server_caller_dies(c, ctx));
     let mut conc: Vec<(String, Stats)> = vec![];
     let names = ["fail(p1) || register(x,p2) where x names p1", "fail(p1) || send(p0) x2, p0 linked, p2 monitoring", "link(p0,p1) || fail(p1)", "send_to_name(x) || unregister(x)", "two senders x2 to one process", "two gen_server callers", "register(x,p0) || register(x,p1)"];
     let bound = if thorough { 4 } else { 3 };
@@ -379,7 +431,7 @@ pub fn run(rep: &Report) -> Value {
         let st = explore(rep, n, bound, std::time::Duration::from_secs(if thorough { 300 } else { 20 }), |ch, ctx| concurrent(ch, ctx, i));
         conc.push((n.to_string(), st));
     }
-    let states = seq_stats.executions + conc.iter().map(|c| c.1.executions).sum::<u64>();
+    let states = seq_stats.executions + gs_stats.executions + conc.iter().map(|c| c.1.executions).sum::<u64>();
     let transitions = seq_stats.transitions + conc.iter().map(|c| c.1.transitions).sum::<u64>();
     let mut samples = vec![json!({"sequential_history": format!("{:?}", cases[cases.len() / 3])}), json!({"sequential_history": format!("{:?}", cases[cases.len() - 11])})];
     for c in &conc { samples.extend(c.1.samples.iter().take(1).cloned()); }
